@@ -1,4 +1,5 @@
 mod core_pp;
+mod db;
 mod util;
 
 fn arg(args: &[String], name: &str) -> Option<String> {
@@ -18,6 +19,17 @@ fn main() {
     let mut sink = util::Sink::new();
     match cmd.as_str() {
         "core-pp" => core_pp::run(seed, cases, &mut sink),
+        "db-scenario" => {
+            let name = arg(&args, "--name").unwrap_or_default();
+            db::scenario(&name, &mut sink)
+        }
+        "db" => {
+            let focus = arg(&args, "--focus").unwrap_or_else(|| "general".into());
+            let nops: usize = arg(&args, "--nops").and_then(|s| s.parse().ok()).unwrap_or(14);
+            let big = args.iter().any(|a| a == "--big");
+            let scale: usize = arg(&args, "--scale").and_then(|s| s.parse().ok()).unwrap_or(1);
+            db::run(seed, cases, &mut sink, &focus, nops, big, scale)
+        }
         _ => {
             eprintln!("usage: vharness <core-pp> --seed S --cases N --out DIR");
             std::process::exit(2);
